@@ -5,7 +5,7 @@
 (* projected onto the attributes the compiler interprets), paths, and a    *)
 (* few sequence helpers.  Everything here is a constant-level operator.    *)
 (***************************************************************************)
-EXTENDS Naturals, Integers, Sequences, FiniteSets, TLC
+EXTENDS Naturals, Integers, Sequences, FiniteSets, TLC, Arith
 
 (* "absent" for an optional integer slot.  TLC cannot compare an integer   *)
 (* with a string, so every optional slot keeps one type.                   *)
@@ -21,7 +21,7 @@ Gcd(a, b) == IF b = 0 THEN a ELSE Gcd(b, a % b)
 RECURSIVE IsPow2(_)
 IsPow2(n) == n >= 1 /\ (n = 1 \/ (n % 2 = 0 /\ IsPow2(n \div 2)))
 
-RoundUp(n, a) == ((n + a - 1) \div a) * a
+(* RoundUp: Arith.tla (with its TLAPS theorems in ArithProofs.tla) *)
 
 (* ------------------- symbolic integers (enum values) ------------------- *)
 (* TLC's integers are 32 bit; discriminants range over isize.  A value is  *)
